@@ -13,9 +13,14 @@ import rpload
 U = 16
 
 
+def nname(spec, i):
+    """node names: unique, or - as the Fork resource manager names the nodes of a local multi-node pilot - all alike"""
+    return 'localhost' if spec.get('localhost') else 'node-%04d' % i
+
+
 def make_nl(rp, spec):
     from radical.pilot.resource_config import Node, NodeList
-    nodes = [{'name': 'node-%04d' % i, 'index': i,
+    nodes = [{'name': nname(spec, i), 'index': i,
               'cores': [None if c is None else c / float(U) for c in n['cores']],
               'gpus': [None if g is None else g / float(U) for g in n['gpus']],
               'lfs': n['lfs'], 'mem': n['mem']} for i, n in enumerate(spec['nodes'])]
@@ -50,7 +55,7 @@ def pilot_update(p):
     """the agent's PMGR_ACTIVE message (it travels on the state channel and with the pilot_activate command: it may
     reach the pilot object more than once)"""
     spec = p._spec
-    nodes = [{'name': 'node-%04d' % i, 'index': i,
+    nodes = [{'name': nname(spec, i), 'index': i,
               'cores': [None if c is None else c / float(U) for c in n['cores']],
               'gpus': [None if g is None else g / float(U) for g in n['gpus']],
               'lfs': n['lfs'], 'mem': n['mem']} for i, n in enumerate(spec['nodes'])]
@@ -107,7 +112,7 @@ def run_real(rp, spec, ops):
                 node = nl.nodes[o[2]]
                 slot = Slot(cores=[RO(index=i, occupation=oc / float(U)) for i, oc in sd['cores']],
                             gpus=[RO(index=i, occupation=oc / float(U)) for i, oc in sd['gpus']],
-                            lfs=sd['lfs'], mem=sd['mem'], node_index=sd['node'], node_name='node-%04d' % sd['node'])
+                            lfs=sd['lfs'], mem=sd['mem'], node_index=sd['node'], node_name=nname(spec, sd['node']))
                 node.allocate_slot(slot)
                 held[o[1]] = [slot]; answers.append('ok')
             except Exception:
@@ -131,7 +136,7 @@ def gen(rng):
     nodes = []
     for i in range(nn):
         nodes.append({'cores': [0] * nc, 'gpus': [0] * ng, 'lfs': lfs, 'mem': mem})
-    spec = {'nodes': nodes, 'cpn': nc, 'gpn': ng, 'lfs_pn': lfs, 'mem_pn': mem}
+    spec = {'nodes': nodes, 'cpn': nc, 'gpn': ng, 'lfs_pn': lfs, 'mem_pn': mem, 'localhost': rng.random() < 0.3}
     ops, live, hid = [], [], 0
     for _ in range(rng.randint(3, 14)):
         if live and rng.random() < 0.4:
@@ -252,8 +257,136 @@ CORPUS = [
 ]
 
 
+# -- two application threads on one node -----------------------------------------------------------------------------
+def run_conc(rp, node_spec, pre, reqs, schedule):
+    """one real Node (its lock replaced by a cooperative one: taking it is the only scheduling point); `pre` requests
+    are placed first; then thread k makes the requests reqs[k] with the real Node.find_slot, interleaved as `schedule`
+    says (thread indices; a thread that cannot go on is skipped), then everything runs to the end.
+    Returns per thread the slots it was given, the final occupation of the node, and the schedule as carried out."""
+    import coop
+    from radical.pilot.resource_config import Node, RankRequirements
+    def mk_rr(r):
+        return RankRequirements(n_cores=r['n_cores'], core_occupation=r['core_occ'] / float(U), n_gpus=r['n_gpus'],
+                                gpu_occupation=r['gpu_occ'] / float(U), lfs=r['lfs'], mem=r['mem'])
+    node = Node({'name': 'node-0000', 'index': 0, 'cores': [None if c is None else c / float(U) for c in node_spec['cores']],
+                 'gpus': [None if g is None else g / float(U) for g in node_spec['gpus']], 'lfs': node_spec['lfs'], 'mem': node_spec['mem']})
+    for r in pre:
+        node.find_slot(mk_rr(r))
+    got = [[] for _ in reqs]
+    if schedule is None:
+        # sequentially, in the order of `reqs`
+        for k, rs in enumerate(reqs):
+            for r in rs:
+                s = node.find_slot(mk_rr(r)); got[k].append(slot_canon(s) if s else None)
+        return got, state_of(node), None
+    lock = coop.CoopRLock()
+    node.__lock__ = lock
+    ctl = coop.Controller()
+    def body(k):
+        def fn():
+            for r in reqs[k]:
+                s = node.find_slot(mk_rr(r)); got[k].append(slot_canon(s) if s else None)
+        return fn
+    done = []
+    try:
+        for k in range(len(reqs)):
+            ctl.spawn('t%d' % k, body(k), run_to_first_point=False)
+        def enabled(k):
+            w = ctl.workers['t%d' % k]
+            if w.done: return False
+            return not (w.parked == 'lock-wait' and lock.owner is not None and lock.owner is not w)
+        for k in list(schedule) + [0, 1] * 12:
+            if k < len(reqs) and enabled(k):
+                ctl.grant('t%d' % k); done.append(k)
+        errs = [repr(w.error) for w in ctl.workers.values() if w.error is not None]
+        fin = all(w.done for w in ctl.workers.values())
+    finally:
+        ctl.close()
+    node.__lock__ = None
+    return got, state_of(node), {'done': done, 'errors': errs, 'finished': fin}
+
+
+def state_of(node):
+    return {'cores': [occ(ro.occupation) for ro in node.cores], 'gpus': [occ(ro.occupation) for ro in node.gpus], 'lfs': node.lfs, 'mem': node.mem}
+
+
+def gen_conc(rng):
+    nc, ng = rng.choice([2, 4]), rng.choice([0, 1, 2])
+    lfs, mem = rng.choice([0, 100]), rng.choice([0, 64])
+    spec = {'cores': [0] * nc, 'gpus': [0] * ng, 'lfs': lfs, 'mem': mem}
+    if rng.random() < 0.2: spec['cores'][rng.randrange(nc)] = None
+    def rr():
+        return {'n_cores': rng.choice([1, 1, 2, nc]), 'core_occ': rng.choice([U, U, 8]), 'n_gpus': rng.choice([0, 1]) if ng else 0,
+                'gpu_occ': rng.choice([U, 8, 10]), 'lfs': rng.choice([0, 60]) if lfs else 0, 'mem': rng.choice([0, 40]) if mem else 0}
+    pre  = [rr() for _ in range(rng.choice([0, 0, 1]))]
+    reqs = [[rr() for _ in range(rng.choice([1, 1, 2]))] for _ in range(2)]
+    return spec, pre, reqs
+
+
+def conc_monitor(spec, pre, reqs, got, final, info, seq):
+    bad = []
+    if info['errors'] or not info['finished']:
+        bad.append(('nodelist:concurrent-find-slot-raised-or-hangs', '%s, finished: %s' % (info['errors'], info['finished'])))
+        return bad
+    for kind in ('cores', 'gpus'):
+        for i, v in enumerate(final[kind]):
+            if v is not None and v > U:
+                bad.append(('nodelist:%s-held-beyond-one:two-threads' % kind[:-1], '%s %d is booked %d/16 after two threads placed requests on the node' % (kind[:-1], i, v)))
+    if (final['lfs'] is not None and final['lfs'] < 0) or (final['mem'] is not None and final['mem'] < 0):
+        bad.append(('nodelist:lfs-or-mem-oversubscribed:two-threads', 'lfs %s mem %s left' % (final['lfs'], final['mem'])))
+    if not any(got == g and final == f for g, f in seq):
+        bad.append(('nodelist:concurrent-find-slot-is-not-one-of-the-two-orders', 'the threads were given %s, the node shows %s; one after the other '
+                    '(either order) they get %s' % (got, final, [g for g, f in seq])))
+    return bad
+
+
+def run_concurrent(ctx):
+    """C01: Node.find_slot from two application threads - every interleaving of the lock acquisitions"""
+    import itertools
+    rp  = rpload.load()
+    rng = ctx.rng
+    nsched = 0
+    cases = [copy.deepcopy(c) for c in CONC_CORPUS] + [gen_conc(rng) for _ in range(ctx.n(12, 400))]
+    for spec, pre, reqs in cases:
+        seq = []
+        for order in ([0, 1], [1, 0]):
+            g, f, _ = run_conc(rp, spec, pre, [reqs[k] for k in order], None)
+            seq.append(([g[order.index(k)] for k in range(2)], f))
+        seen = set()
+        for sched in itertools.product([0, 1], repeat=5):
+            got, final, info = run_conc(rp, spec, pre, reqs, list(sched))
+            key = tuple(info['done'])
+            if key in seen: continue
+            seen.add(key); nsched += 1
+            ctx.case({'conc': [spec, pre, reqs, info['done']]}, nontrivial=got[0] != [None] and got[1] != [None])
+            for sig, what in conc_monitor(spec, pre, reqs, got, final, info, seq):
+                ctx.fail(sig, what, {'script': None, 'conc': {'spec': spec, 'pre': pre, 'reqs': reqs, 'schedule': info['done']}})
+    ctx.obligation('two application threads on one node: every interleaving of the lock acquisitions of the real Node.find_slot gives what '
+                   'one of the two sequential orders gives (%d cases, %d distinct schedules)' % (len(cases), nsched), 'tie', nsched > 0, '')
+    ctx.assume += ['two threads on one Node (the lock the property relies on is per node); the only scheduling points are the acquisitions of '
+                   'the node lock - code between two acquisitions is atomic in the harness; NodeList.find_slots keeps its cursor without a '
+                   'lock and is exercised sequentially only']
+
+
+CONC_CORPUS = [
+    ({'cores': [0, 0], 'gpus': [0], 'lfs': 100, 'mem': 64}, [],
+     [[{'n_cores': 2, 'core_occ': 16, 'n_gpus': 1, 'gpu_occ': 10, 'lfs': 60, 'mem': 40}],
+      [{'n_cores': 2, 'core_occ': 16, 'n_gpus': 1, 'gpu_occ': 10, 'lfs': 60, 'mem': 40}]]),
+]
+
+
 def replay(ctx, data, prop):
     rp = rpload.load()
+    if data['input'].get('conc'):
+        c = data['input']['conc']
+        seq = []
+        for order in ([0, 1], [1, 0]):
+            g, f, _ = run_conc(rp, c['spec'], c['pre'], [c['reqs'][k] for k in order], None)
+            seq.append(([g[order.index(k)] for k in range(2)], f))
+        got, final, info = run_conc(rp, c['spec'], c['pre'], c['reqs'], c['schedule'])
+        bad = conc_monitor(c['spec'], c['pre'], c['reqs'], got, final, info, seq)
+        print(got, final, info); print(bad)
+        return not bad
     d = data['input']['nodelist']
     r, trace = run_real(rp, d['spec'], d['ops'])
     bad = monitor(d['spec'], d['ops'], trace, [prop])
